@@ -131,10 +131,23 @@ def raw_sample(k: np.ndarray, filename="file_a.h5", slice_no=0, crop_shape=None)
     return s
 
 
+class ImplError(Exception):
+    """an exception of the implementation (direct's own exceptions derive from BaseException)"""
+
+    def __init__(self, inner):
+        super().__init__(f"{type(inner).__name__}: {inner}")
+        self.inner = inner
+
+
 def run_real(tr, sample):
     with warnings.catch_warnings():
         warnings.simplefilter("ignore")
-        return tr(sample)
+        try:
+            return tr(sample)
+        except (KeyboardInterrupt, SystemExit):
+            raise
+        except BaseException as e:  # noqa: BLE001
+            raise ImplError(e) from e
 
 
 # --------------------------------------------------------------------------------------------------
@@ -198,7 +211,7 @@ def canon_out(out: dict, three_d: bool, recon: int) -> str:
 
 
 def _err(e: BaseException) -> str:
-    n = err_name(e)
+    n = err_name(e.inner if isinstance(e, ImplError) else e)
     return "err " + ("KeyError" if n in ("KeyError", "ValueError", "ItemNotFoundException") else n)
 
 
